@@ -83,6 +83,20 @@ def run(chk):
         if problems:
             chk.violation("c12:%s" % " ".join(c["pat"]), "pattern  %s  : %s" % (" ".join(TEXT[x] for x in c["pat"]), "; ".join(problems)),
                           {"pattern": c["pat"], "input": inputs[i], "result": r})
+    # "is reported" at the public entry point: the same files through Theo::compile (every 4th pattern, slice by seed, and a program
+    # that stays valid when the rejected macro is not applied, so that only the macro error can mark the result incorrect)
+    import macro
+    items = []
+    for i, c in enumerate(cases):
+        r = got.get(i)
+        if r is None or i % 4 != chk.seed % 4:
+            continue
+        items.append((inputs[i]["files"], "m", [(e[1], e[2]) for e in r["runs"][0]["errs"]]))
+        pat = " ".join(TEXT[x] for x in c["pat"])
+        if c["conflict"] and len(items) % 3 == 0:
+            items.append(({"m": "DEFINE\n  %s\nAS ) END DEFINE\nx := 1\n" % pat}, "m", [("m", 2)]))
+    ne = macro.through_compile(chk, th, items, "c12")
+    chk.add("patterns_through_compile", ne)
     chk.cov["traces_validated_against_impl"] = n
     chk.cov["patterns"] = len(cases)
     chk.cov["patterns_with_conflict"] = sum(1 for c in cases if c["conflict"])
@@ -90,7 +104,8 @@ def run(chk):
     chk.cov["rule"] = ("all patterns of <= 3 symbols and %s of length 4 over the five slot kinds and six literal kinds (operator, ';', ',', END, a literal "
                        "identifier, '('); canonical LR(1) prefix-mode conflict verdict from TLC; each pattern is defined in an included file next to "
                        "an unrelated usable macro and used once: non-linear error at the pattern's first token iff conflict, rejected use left "
-                       "alone, unrelated macro applied in both cases, accepted use rewritten" % ("all" if chk.thorough else "half (slice by seed)"))
+                       "alone, unrelated macro applied in both cases, accepted use rewritten; a quarter of the patterns also through Theo::compile "
+                       "(the non-linear errors must reach the caller and mark the result incorrect)" % ("all" if chk.thorough else "half (slice by seed)"))
     k = len(cases) // 2
     chk.sample({"pattern": cases[k]["pat"], "conflict": cases[k]["conflict"], "lr1_states": cases[k]["states"], "source": inputs[k]["files"]})
     log("C12: %d patterns compared" % n)
